@@ -47,6 +47,8 @@ MUT = [
  ("C17", "qkeras/qtools/quantized_operators/accumulator_impl.py", "    self.log_add_ops = int(np.ceil(np.log2(add_ops)))", "    self.log_add_ops = int(np.floor(np.log2(add_ops)))", "qbits_rank2"),
  ("C17", "qkeras/qtools/quantized_operators/adder_impl.py", "    fractional_bits = max(fractional_bits1, fractional_bits2)", "    fractional_bits = min(fractional_bits1, fractional_bits2)", "qbits_plus_qbits"),
  ("C04", "qkeras/quantizers.py", "    k_sign += (1.0 - tf.abs(k_sign))\n    if self.use_01:", "    if self.use_01:", "binary.__call__"),
+ ("C04", "qkeras/quantizers.py", "    axes_of_mean = _get_scaling_axis(unrolled_scale_axis, len(unrolled_shape))", "    axes_of_mean = _get_scaling_axis(scale_axis, len(unrolled_shape))", "_eps"),
+ ("C04", "qkeras/quantizers.py", "    qq = _repeat_along_axes(qq, repeats=elements_per_scale, axis=scale_axis)", "    qq = _repeat_along_axes(qq, repeats=1, axis=scale_axis)", "_eps"),
  ("C04", "qkeras/quantizers.py", "      q = K.cast(tf.abs(x) >= thres, K.floatx()) * tf.sign(x)\n\n    # ternary ranges", "      q = K.cast(tf.abs(x) > thres, K.floatx()) * tf.sign(x)\n\n    # ternary ranges", "ternary.__call__/alpha-"),
  ("C04", "qkeras/quantizers.py", "    qx = K.mean(tf.math.multiply(x, q), axis=axis, keepdims=True)\n    qq = K.mean(tf.math.multiply(q, q), axis=axis, keepdims=True)\n  return qx, qq", "    qx = K.mean(tf.math.multiply(x, q), axis=axis[:-1], keepdims=True)\n    qq = K.mean(tf.math.multiply(q, q), axis=axis[:-1], keepdims=True)\n  return qx, qq", "rank4"),
  ("C04", "qkeras/quantizers.py", "  scale = K.clip(scale, min_value=min_po2, max_value=max_po2)\n  return scale", "  scale = K.clip(scale, min_value=max_po2, max_value=min_po2)\n  return scale", "bounded"),
